@@ -31,7 +31,7 @@ def run_demo(md):
             rc, out = sh(f"bash {md}/{name} {WT}", cwd=md)
             return rc, out[-1500:], f"bash {name} {WT}"
     return None, "no demo found", ""
-for m in ("m1", "m2"):
+for m in (sys.argv[2:] or ["m1", "m2"]):
     md = f"/tmp/mut/{ID}-out/{m}"
     if not os.path.exists(f"{md}/patch.diff"):
         continue
